@@ -50,8 +50,9 @@ def gen_tokens(rng):
         else:
             # an expression-valued argument closed by nothing but the line break (marked with a trailing NUL), often followed by a command
             # that starts with a character that is an operator inside expressions
-            toks.append(rng.choice(["@%d" % rng.randint(1, 128), "y7,%d" % rng.randint(0, 127), "TR=%d" % rng.randint(1, 4), "Tempo=%d" % rng.randint(60, 200), "INT A=%d" % rng.randint(0, 9), "A=A+1", "v=%d" % rng.randint(1, 127), "o=%d" % rng.randint(3, 6), "KeyShift=2", "PRINT(A)"]) + "\0")
-            if rng.random() < 0.7: toks.append(rng.choice([">", "<", ">c", "<d8", "(c)", "-c", "+c", "*c" if False else "c", "'ce'", "[2 c]", "{c d}4"]))
+            toks.append(rng.choice(["@%d" % rng.randint(1, 128), "y7,%d" % rng.randint(0, 127), "TR=%d" % rng.randint(1, 4), "Tempo=%d" % rng.randint(60, 200), "INT A=%d" % rng.randint(0, 9), "A=A+1", "v=%d" % rng.randint(1, 127), "o=%d" % rng.randint(3, 6), "KeyShift=2", "PRINT(A)",
+                                    "TR=A", "y7,A", "INT B=A", "v=A", "@A", "A=B"]) + "\0")      # (… also ending in a bare name: the line break ends it, a `(` on the next line is the next command)
+            if rng.random() < 0.7: toks.append(rng.choice([">", "<", ">c", "<d8", "(c)", "(c d) e", "( c", "-c", "+c", "*c" if False else "c", "'ce'", "[2 c]", "{c d}4"]))
         if rng.random() < 0.08:
             # ... also inside a loop, right before the loop-break ':' (which is an argument separator inside expressions)
             toks += ["[%d" % rng.randint(2, 3), rng.choice(["c", "d8 e"]), rng.choice(["Tempo=%d" % rng.randint(60, 200), "@%d" % rng.randint(1, 128), "TR=1", "v=%d" % rng.randint(1, 127), "y7,%d" % rng.randint(0, 127)]) + "\0", ":", rng.choice(["g", "a b"]), "]"]
